@@ -254,17 +254,19 @@ def random_inval(tier, seed, n=None):
     r = random.Random(seed * 15485863 + 5)
     n = n or (500 if tier == "quick" else 20000)
     out = []
-    us = [0, 1, 10]
     for i in range(n):
+        # three resources, two of which share an origin; the third lives on another host - or on the same host under
+        # another scheme and / or port
+        us = [[0, 1, 10], [0, 1, 10], [30, 31, 40], [20, 21, 50], [0, 1, 20], [40, 41, 30]][i % 6]
         steps = []
         for _ in range(r.randrange(4, 10)):
             u = r.choice(us)
             if r.random() < 0.3:
                 m = r.choice(METHODS)
-                loc = r.choice([0, 0, 1, 2, 11])
-                cloc = r.choice([0, 0, 0, 1, 2, 11])
+                loc = r.choice([0, 0, us[0] + 1, us[1] + 1, us[2] + 1])
+                cloc = r.choice([0, 0, 0, us[0] + 1, us[1] + 1, us[2] + 1])
                 so = lambda c: 1 if c and (c - 1) // 10 == u // 10 else 0
-                a = ans(st=r.choice([200, 201, 204, 301, 303, 400, 404, 500]), ccp=0, etag=0, loc1=loc, locso=so(loc),
+                a = ans(st=r.choice([200, 201, 202, 204, 205, 226, 299, 300, 301, 302, 303, 307, 308, 399, 400, 404, 500]), ccp=0, etag=0, loc1=loc, locso=so(loc),
                         cloc1=cloc, clocso=so(cloc), locf=r.choice([0, 1, 2, 3, 4]) if so(loc) else 0)
                 if a["locf"] == 1 and cloc and not so(cloc):
                     a["cloc1"], a["clocso"] = 0, 0
@@ -306,21 +308,27 @@ def inval_named(tier):
     out = []
     i = 0
     stored_a = ans(ccp=1, ma=100, etag=1)
-    # URI classes: 0 = the target, 1 and 2 same origin (1 is stored, 2 never is), 10 other origin (stored)
-    for target_stored in (0, 1):
-        for loc in (0, 2, 3, 11):
-            for cloc in (0, 2, 3, 11):
-                for m in (("POST", "PUT") if tier == "quick" else ("POST", "PUT", "DELETE", "PATCH", "X-UNKNOWN")):
-                    so = lambda c: 1 if c in (2, 3) else 0
-                    steps = []
-                    for u in ([0] if target_stored else []) + [1, 10]:
-                        steps += [{"op": "req", "rq": rq(u=u), "ans": [stored_a]}, {"op": "tick", "d": 1}]
-                    a = ans(st=201, ccp=0, etag=0, loc1=loc, locso=so(loc), cloc1=cloc, clocso=so(cloc), locf=(i % 5) if so(loc) or so(cloc) else 0)
-                    steps += [{"op": "req", "rq": rq(u=0, m=m), "ans": [a]}, {"op": "tick", "d": 1}]
-                    for u in (0, 1, 10):
-                        steps += [{"op": "req", "rq": rq(u=u), "ans": [ans(ccp=1, ma=100, etag=2)]}]
-                    out.append({"id": "invnamed/%03d" % i, "backend": "fs" if i % 4 == 0 else "mem", "opt": {}, "steps": steps, "grp": "", "spv": 0})
-                    i += 1
+    # URI classes relative to the target t: t+1 and t+2 same origin (t+1 is stored, t+2 never is), o = another origin (stored).
+    # Origins (host classes, harness originOf): 0 and 1 two hosts; 2..5 the host of 0 with another scheme and / or port
+    for t, o in ((0, 10), (30, 40), (20, 50), (0, 20), (40, 30)):
+        for target_stored in (0, 1):
+            for loc in (0, t + 2, t + 3, o + 1):
+                for cloc in (0, t + 2, t + 3, o + 1):
+                    for m in (("POST", "PUT") if tier == "quick" else ("POST", "PUT", "DELETE", "PATCH", "X-UNKNOWN")):
+                        if t != 0 and (i % 2 == 1 if tier == "quick" else False):
+                            i += 1
+                            continue
+                        so = lambda c: 1 if c in (t + 2, t + 3) else 0
+                        steps = []
+                        for u in ([t] if target_stored else []) + [t + 1, o]:
+                            steps += [{"op": "req", "rq": rq(u=u), "ans": [stored_a]}, {"op": "tick", "d": 1}]
+                        a = ans(st=[201, 200, 307, 308, 302, 204, 226, 399][i % 8], ccp=0, etag=0, loc1=loc, locso=so(loc), cloc1=cloc, clocso=so(cloc),
+                                locf=(i % 5) if so(loc) or so(cloc) else 0)
+                        steps += [{"op": "req", "rq": rq(u=t, m=m), "ans": [a]}, {"op": "tick", "d": 1}]
+                        for u in (t, t + 1, o):
+                            steps += [{"op": "req", "rq": rq(u=u), "ans": [ans(ccp=1, ma=100, etag=2)]}]
+                        out.append({"id": "invnamed/%04d" % i, "backend": "fs" if i % 4 == 0 else "mem", "opt": {}, "steps": steps, "grp": "", "spv": 0})
+                        i += 1
     return out
 
 
